@@ -1136,6 +1136,64 @@ def r11_tokenizer_end_to_end(rep, src, tier):
         rep.ok('C01.R11', f.site, what, '%d line lists' % n)
 
 
+def r12_parser_end_to_end(rep, src, tier):
+    """the whole parser by interpretation: parse_deb822_file in its accepting mode (sa.heap: the tokenizer, every re-grouping stage, the
+    buffering iterators and the element constructors as written) on line lists over the line classes of the format -- field, field
+    without value, continuation, empty, whitespace-only, comment, a line that is none of these -- in the three input modes; it returns a
+    document whose text is the input (each line followed by a line end where the tokenizer supplies them).  An invalid line in front
+    of continuation lines, a comment between them, a continuation line with nothing to continue are members of the family."""
+    import itertools
+    from .. import heap as H
+    mod = src.mod(PM)
+    f = src.func(PM + ':parse_deb822_file')
+    rep.saw_func(f)
+    KINDS = ['A: b', 'Cc:', ' more', '', '  ', '# note', 'not a field']
+    lists = [list(t_) for n_ in range(1, 3) for t_ in itertools.product(KINDS, repeat=n_)]
+    lists += [['Source: hello', 'Build-Depends debhelper,', ' libfoo-dev'], ['not a field', ' more', ' more'], ['A: b', '# note', ' more', 'Cc:'], ['A: b', ' more', '', 'Cc:', ' more'],
+              ['# note', 'A: b', ' more', '# note', ' more', '', '# note', ''], ['A: b', 'A: b', 'Cc:', 'A: b'], ['not a field', '# note', ' more', 'A: b'], [' more', 'A: b', 'not a field', 'Cc:', ' more']]
+    if tier == 'thorough':
+        lists += [list(t_) for t_ in itertools.product(KINDS, repeat=3)]
+    n, bad = 0, None
+    for body in lists:
+        for mode in ('every line terminated', 'the last line unterminated', 'no line terminated'):
+            if mode == 'the last line unterminated' and (not body or body[-1] == ''):
+                continue
+            if mode == 'no line terminated' and (len(body) < 2 or '' in body[:1]):
+                continue
+            if mode != 'every line terminated' and tier != 'thorough' and len(body) == 2 and n % 3:
+                pass
+            if mode == 'every line terminated':
+                lines = [l_ + '\n' for l_ in body]
+            elif mode == 'the last line unterminated':
+                lines = [l_ + '\n' for l_ in body[:-1]] + [body[-1]]
+            else:
+                lines = list(body)
+            want = ''.join(lines) if mode != 'no line terminated' else ''.join(l_ + '\n' for l_ in lines)
+            heap = H.Heap(mod, extra_modules=[src.mod(TK), src.mod('_deb822_repro._util'), src.mod('_util')],
+                          hooks={'sys.intern': lambda it, a, k: a[0], '_strI': lambda it, a, k: H.Key(a[0].lower(), a[0]) if isinstance(a[0], str) else a[0]})
+            heap.native_regex = True
+            it = H.Interp(heap)
+            n += 1
+            try:
+                doc = it.call(H.Closure(f.node, {}, None, None), [heap.new_list(list(lines))], {'accept_files_with_error_tokens': True, 'accept_files_with_duplicated_fields': True})
+                m_ = mod.method(heap.objs[doc.name]['__class__'], 'convert_to_text') if isinstance(doc, H.Ref) else None
+                if m_ is None:
+                    raise AnalysisError('%s returns %r' % (f.site, doc))
+                got = it.call(H.Closure(m_.node, {}, doc, m_.cls), [])
+                got = got.concrete() if hasattr(got, 'concrete') else got
+            except H.Raised as x:
+                got = ('raises', '%s (line %d)' % (x.exc, x.lineno))
+            if got != want and bad is None:
+                bad = 'the lines %r (%s): the parser in its accepting mode %s; the text of the document must be %r' % (
+                    lines, mode, 'raises %s' % got[1] if isinstance(got, tuple) else 'gives a document whose text is %r' % (got,), want)
+    rep.analysed['paths'] += n
+    what = 'the accepting parser returns a document whose text is the input (interpreted line lists, three input modes)'
+    if bad:
+        rep.fail('C01.R12', f.site, what, bad, where=f.where)
+    else:
+        rep.ok('C01.R12', f.site, what, '%d line lists' % n)
+
+
 def _concat_of_all_tokens(fnode):
     """True / reason string / None (unrecognised) for "some return value is ''.join(<t.text for every t in self.iter_tokens()>)" """
     lists = {}
@@ -1441,6 +1499,8 @@ def check(src, rep, tier):
     from . import common
     rep.need('C01.R11', 1)
     rep.guard('C01.R11', r11_tokenizer_end_to_end, src, tier)
+    rep.need('C01.R12', 1)
+    rep.guard('C01.R12', r12_parser_end_to_end, src, tier)
     rep.need('C01.R10', 1)
     rep.guard('C01.R10', common.check_closure_factories, src, 'C01.R10', ['_deb822_repro._util', PM, TK],
               'tokens that a parse left behind (it raised half-way, or its result was not read to the end) are emitted into the next document that is parsed')
